@@ -51,7 +51,9 @@ RULE = ("S1: operation sequences on the real ProtocolSet (<=3 protocols, channel
         "released before the loop is polled), negotiation-spanning and seeded random operation sequences on the real "
         "TcpConnection loop (1-3 protocols, keep-alive yes/no), every observation checked against the set the permit-aware "
         "model allows; plus channel capacities 1-3, fill/pause/resume of protocols and the manager, real-time holds (sleep), "
-        "connections accepted through the real TcpTransport::accept with full/paused/dead receivers, half-closed substreams. "
+        "connections accepted through the real TcpTransport::accept with full/paused/dead receivers, half-closed substreams, "
+        "bursts of open requests beyond the yamux ACK backlog against a stalling remote followed by every close cause (the "
+        "connection must still notice a remote close afterwards), fallback names. "
         "A case is non-trivial if a report call was made with "
         "a dead or full receiver, or it is a conclusive S2 scenario; distinct = distinct (ops, observations) by SHA-256")
 TRUSTED_BASE = ["Lean 4.33 kernel", "axioms: propext, Classical.choice, Quot.sound only",
